@@ -348,3 +348,478 @@ Proof.
   pose proof (hand_C_zero lat lon alt VN VE VD C00 C01 C02 C10 C11 C12 C20 C21 C22) as H.
   repeat split; try reflexivity; apply H.
 Qed.
+(** * 5. step_consistent: first-order consistency with the navigation ODE *)
+
+Section Consistent.
+Variables lat lon alt VN VE VD C00 C01 C02 C10 C11 C12 C20 C21 C22 w0 w1 w2 f0 f1 f2 : R.
+Variables th0 th1 th2 dv0 dv1 dv2 : R -> R.
+Hypothesis Hlat : -90 < lat < 90.
+Hypothesis Halt : -1000000 <= alt.
+Hypothesis Hth0 : th0 0 = 0.
+Hypothesis Hth1 : th1 0 = 0.
+Hypothesis Hth2 : th2 0 = 0.
+Hypothesis Hdv0 : dv0 0 = 0.
+Hypothesis Hdv1 : dv1 0 = 0.
+Hypothesis Hdv2 : dv2 0 = 0.
+Hypothesis Dth0 : is_derive th0 0 w0.
+Hypothesis Dth1 : is_derive th1 0 w1.
+Hypothesis Dth2 : is_derive th2 0 w2.
+Hypothesis Ddv0 : is_derive dv0 0 f0.
+Hypothesis Ddv1 : is_derive dv1 0 f1.
+Hypothesis Ddv2 : is_derive dv2 0 f2.
+
+Notation CURVE f :=
+  (fun dt : R => f dt lat lon alt VN VE VD C00 C01 C02 C10 C11 C12 C20 C21 C22
+                   (th0 dt) (th1 dt) (th2 dt) (dv0 dt) (dv1 dt) (dv2 dt)) (only parsing).
+Notation RHS f := (f lat lon alt VN VE VD C00 C01 C02 C10 C11 C12 C20 C21 C22 w0 w1 w2 f0 f1 f2) (only parsing).
+
+(* expose the dependence on dt, keep the slow quantities (h_rn, h_re, h_cos, h_chi at the old
+   velocity, h_g0, ...) folded: they are constants for auto_derive *)
+Ltac unf_fast :=
+  unfold hand_lat, hand_lon, hand_alt, hand_xi1, hand_xi2, hand_xi3, hand_VNa, hand_VEa, hand_VDa,
+    hand_VN, hand_VE, hand_VD,
+    h_newlat, h_newlon, h_newalt, h_avg, h_newVN, h_newVE, h_newVD, h_dvn, h_xi1, h_xi2, h_xi3, h_gravity.
+
+(* side conditions of auto_derive: differentiability of the curves, non-zero denominators *)
+Ltac side :=
+  pose proof (h_rn_pos lat alt Halt); pose proof (h_re_pos lat alt Halt); pose proof (h_cos_pos lat Hlat);
+  repeat split; trivial;
+  try (eexists; eassumption); try (apply Rgt_not_eq; assumption).
+
+Ltac to_spec :=
+  let E := fresh "E" in
+  assert (E : Derive (fun x => dv0 x) 0 = f0) by (apply is_derive_unique; exact Ddv0); rewrite ?E; clear E;
+  assert (E : Derive (fun x => dv1 x) 0 = f1) by (apply is_derive_unique; exact Ddv1); rewrite ?E; clear E;
+  assert (E : Derive (fun x => dv2 x) 0 = f2) by (apply is_derive_unique; exact Ddv2); rewrite ?E; clear E;
+  rewrite ?Hdv0, ?Hdv1, ?Hdv2;
+  unfold h_chi1, h_chi2, h_chi3;
+  rewrite ?(h_rho1_eq lat alt VN VE), ?(h_rho2_eq lat alt VN VE), ?(h_rho3_eq lat alt VN VE Hlat),
+          ?(h_Om1_eq lat Hlat), ?h_Om2_eq, ?h_Om3_eq.
+
+Ltac nz := repeat split; try (apply Rgt_not_eq; assumption); try apply PI_neq0; try (unfold A_; lra).
+
+Lemma d_hand_VN : is_derive (CURVE hand_VN) 0 (RHS nav_rhs_VN).
+Proof.
+  unf_fast. auto_derive; [side|]. to_spec.
+  unfold nav_rhs_VN, nav_cor_N, nav_cor_E, nav_cor_D, cross0, dot3. field.
+Qed.
+Lemma d_hand_VE : is_derive (CURVE hand_VE) 0 (RHS nav_rhs_VE).
+Proof.
+  unf_fast. auto_derive; [side|]. to_spec.
+  unfold nav_rhs_VE, nav_cor_N, nav_cor_E, nav_cor_D, cross1, dot3. field.
+Qed.
+Lemma d_hand_VD : is_derive (CURVE hand_VD) 0 (RHS nav_rhs_VD).
+Proof.
+  unf_fast. auto_derive; [side|]. to_spec.
+  unfold nav_rhs_VD, nav_cor_N, nav_cor_E, nav_cor_D, cross2, dot3.
+  rewrite <- h_gravity_eq. unfold h_gravity. field. nz.
+Qed.
+Lemma d_hand_alt : is_derive (CURVE hand_alt) 0 (RHS nav_rhs_alt).
+Proof.
+  unf_fast. auto_derive; [side|]. to_spec. unfold nav_rhs_alt. field. nz.
+Qed.
+Lemma d_hand_lat : is_derive (CURVE hand_lat) 0 (RHS nav_rhs_lat).
+Proof.
+  unf_fast. unfold h_rho2. auto_derive; [side|]. to_spec. unfold nav_rhs_lat, r2d.
+  rewrite <- (h_rn_eq lat alt). pose proof (h_rn_pos lat alt Halt). field. nz.
+Qed.
+Lemma d_hand_lon : is_derive (CURVE hand_lon) 0 (RHS nav_rhs_lon).
+Proof.
+  unf_fast. unfold h_rho1. auto_derive; [side|]. to_spec. unfold nav_rhs_lon, r2d.
+  rewrite <- (h_re_eq lat alt), <- (h_cos_eq lat Hlat).
+  pose proof (h_re_pos lat alt Halt). pose proof (h_cos_pos lat Hlat). field. nz.
+Qed.
+
+(* the rotation vector of the navigation frame: xi(0) = 0, xi'(0) = - (Omega + rho) *)
+Lemma d_hand_xi1 : is_derive (CURVE hand_xi1) 0 (- nav_om_N lat alt VN VE).
+Proof.
+  unf_fast. unfold h_chi1 at 1. unfold h_rho1 at 1. auto_derive; [side|]. to_spec.
+  unfold nav_om_N. rewrite <- (h_rho1_eq lat alt VN VE). unfold h_rho1.
+  pose proof (h_re_pos lat alt Halt). field. nz.
+Qed.
+Lemma d_hand_xi2 : is_derive (CURVE hand_xi2) 0 (- nav_om_E lat alt VN VE).
+Proof.
+  unf_fast. unfold h_chi2 at 1. unfold h_rho2 at 1. auto_derive; [side|]. to_spec.
+  unfold nav_om_E. rewrite <- (h_rho2_eq lat alt VN VE). unfold h_rho2.
+  pose proof (h_rn_pos lat alt Halt). field. nz.
+Qed.
+Lemma d_hand_xi3 : is_derive (CURVE hand_xi3) 0 (- nav_om_D lat alt VN VE).
+Proof.
+  unf_fast. unfold h_chi3 at 1. unfold h_rho3 at 1. unfold h_rho1 at 1. auto_derive; [side|]. to_spec.
+  unfold nav_om_D. rewrite <- (h_rho3_eq lat alt VN VE Hlat). unfold h_rho3, h_rho1.
+  pose proof (h_re_pos lat alt Halt). field. nz.
+Qed.
+
+Lemma hand_xi_dt0 :
+  (CURVE hand_xi1) 0 = 0 /\ (CURVE hand_xi2) 0 = 0 /\ (CURVE hand_xi3) 0 = 0.
+Proof. cbv beta. unfold hand_xi1, hand_xi2, hand_xi3, h_xi1, h_xi2, h_xi3. repeat split; ring. Qed.
+
+(* the six curves entering an attitude entry: row i of dBn(t) = R(xi(t)), column j of dBb(t) = R(theta(t)) *)
+Ltac att_entry Ma Mb Mc Mx My Mz da db dc dx dy dz :=
+  destruct hand_xi_dt0 as [X1 [X2 X3]];
+  pose proof (da _ _ _ _ _ _ X1 X2 X3 d_hand_xi1 d_hand_xi2 d_hand_xi3) as DA;
+  pose proof (db _ _ _ _ _ _ X1 X2 X3 d_hand_xi1 d_hand_xi2 d_hand_xi3) as DB;
+  pose proof (dc _ _ _ _ _ _ X1 X2 X3 d_hand_xi1 d_hand_xi2 d_hand_xi3) as DC;
+  pose proof (dx _ _ _ _ _ _ Hth0 Hth1 Hth2 Dth0 Dth1 Dth2) as DX;
+  pose proof (dy _ _ _ _ _ _ Hth0 Hth1 Hth2 Dth0 Dth1 Dth2) as DY;
+  pose proof (dz _ _ _ _ _ _ Hth0 Hth1 Hth2 Dth0 Dth1 Dth2) as DZ;
+  pose proof (att_product_deriv _ _ _ _ _ _ _ _ _ _ _ _ C00 C01 C02 C10 C11 C12 C20 C21 C22 DA DB DC DX DY DZ) as P;
+  cbv beta in P; cbv beta in X1, X2, X3;
+  rewrite X1, X2, X3, Hth0, Hth1, Hth2 in P;
+  destruct mfr_at_0 as [E00 [E01 [E02 [E10 [E11 [E12 [E20 [E21 E22]]]]]]]];
+  rewrite ?E00, ?E01, ?E02, ?E10, ?E11, ?E12, ?E20, ?E21, ?E22 in P;
+  unfold h_att;
+  evar_last; [exact P|];
+  unfold h_rc, dot3, skew00, skew01, skew02, skew10, skew11, skew12, skew20, skew21, skew22; ring.
+
+Lemma d_hand_C00 : is_derive (CURVE hand_C00) 0 (RHS nav_rhs_C00).
+Proof.
+  unfold hand_C00, nav_rhs_C00.
+  att_entry mat_from_rotvec_m00 mat_from_rotvec_m01 mat_from_rotvec_m02 mat_from_rotvec_m00 mat_from_rotvec_m10 mat_from_rotvec_m20
+            mfr_m00_near0 mfr_m01_near0 mfr_m02_near0 mfr_m00_near0 mfr_m10_near0 mfr_m20_near0.
+Qed.
+Lemma d_hand_C01 : is_derive (CURVE hand_C01) 0 (RHS nav_rhs_C01).
+Proof.
+  unfold hand_C01, nav_rhs_C01.
+  att_entry mat_from_rotvec_m00 mat_from_rotvec_m01 mat_from_rotvec_m02 mat_from_rotvec_m01 mat_from_rotvec_m11 mat_from_rotvec_m21
+            mfr_m00_near0 mfr_m01_near0 mfr_m02_near0 mfr_m01_near0 mfr_m11_near0 mfr_m21_near0.
+Qed.
+Lemma d_hand_C02 : is_derive (CURVE hand_C02) 0 (RHS nav_rhs_C02).
+Proof.
+  unfold hand_C02, nav_rhs_C02.
+  att_entry mat_from_rotvec_m00 mat_from_rotvec_m01 mat_from_rotvec_m02 mat_from_rotvec_m02 mat_from_rotvec_m12 mat_from_rotvec_m22
+            mfr_m00_near0 mfr_m01_near0 mfr_m02_near0 mfr_m02_near0 mfr_m12_near0 mfr_m22_near0.
+Qed.
+Lemma d_hand_C10 : is_derive (CURVE hand_C10) 0 (RHS nav_rhs_C10).
+Proof.
+  unfold hand_C10, nav_rhs_C10.
+  att_entry mat_from_rotvec_m10 mat_from_rotvec_m11 mat_from_rotvec_m12 mat_from_rotvec_m00 mat_from_rotvec_m10 mat_from_rotvec_m20
+            mfr_m10_near0 mfr_m11_near0 mfr_m12_near0 mfr_m00_near0 mfr_m10_near0 mfr_m20_near0.
+Qed.
+Lemma d_hand_C11 : is_derive (CURVE hand_C11) 0 (RHS nav_rhs_C11).
+Proof.
+  unfold hand_C11, nav_rhs_C11.
+  att_entry mat_from_rotvec_m10 mat_from_rotvec_m11 mat_from_rotvec_m12 mat_from_rotvec_m01 mat_from_rotvec_m11 mat_from_rotvec_m21
+            mfr_m10_near0 mfr_m11_near0 mfr_m12_near0 mfr_m01_near0 mfr_m11_near0 mfr_m21_near0.
+Qed.
+Lemma d_hand_C12 : is_derive (CURVE hand_C12) 0 (RHS nav_rhs_C12).
+Proof.
+  unfold hand_C12, nav_rhs_C12.
+  att_entry mat_from_rotvec_m10 mat_from_rotvec_m11 mat_from_rotvec_m12 mat_from_rotvec_m02 mat_from_rotvec_m12 mat_from_rotvec_m22
+            mfr_m10_near0 mfr_m11_near0 mfr_m12_near0 mfr_m02_near0 mfr_m12_near0 mfr_m22_near0.
+Qed.
+Lemma d_hand_C20 : is_derive (CURVE hand_C20) 0 (RHS nav_rhs_C20).
+Proof.
+  unfold hand_C20, nav_rhs_C20.
+  att_entry mat_from_rotvec_m20 mat_from_rotvec_m21 mat_from_rotvec_m22 mat_from_rotvec_m00 mat_from_rotvec_m10 mat_from_rotvec_m20
+            mfr_m20_near0 mfr_m21_near0 mfr_m22_near0 mfr_m00_near0 mfr_m10_near0 mfr_m20_near0.
+Qed.
+Lemma d_hand_C21 : is_derive (CURVE hand_C21) 0 (RHS nav_rhs_C21).
+Proof.
+  unfold hand_C21, nav_rhs_C21.
+  att_entry mat_from_rotvec_m20 mat_from_rotvec_m21 mat_from_rotvec_m22 mat_from_rotvec_m01 mat_from_rotvec_m11 mat_from_rotvec_m21
+            mfr_m20_near0 mfr_m21_near0 mfr_m22_near0 mfr_m01_near0 mfr_m11_near0 mfr_m21_near0.
+Qed.
+Lemma d_hand_C22 : is_derive (CURVE hand_C22) 0 (RHS nav_rhs_C22).
+Proof.
+  unfold hand_C22, nav_rhs_C22.
+  att_entry mat_from_rotvec_m20 mat_from_rotvec_m21 mat_from_rotvec_m22 mat_from_rotvec_m02 mat_from_rotvec_m12 mat_from_rotvec_m22
+            mfr_m20_near0 mfr_m21_near0 mfr_m22_near0 mfr_m02_near0 mfr_m12_near0 mfr_m22_near0.
+Qed.
+End Consistent.
+
+(** the statements about the GENERATED step (closed, outside the section) *)
+Ltac via_hand char dlem :=
+  eapply is_derive_ext; [ intro t; symmetry; apply char | eapply dlem; eassumption ].
+
+Lemma step_consistent_position (lat lon alt VN VE VD C00 C01 C02 C10 C11 C12 C20 C21 C22 w0 w1 w2 f0 f1 f2 : R)
+      (th0 th1 th2 dv0 dv1 dv2 : R -> R) :
+  -90 < lat < 90 -> -1000000 <= alt ->
+  th0 0 = 0 -> th1 0 = 0 -> th2 0 = 0 -> dv0 0 = 0 -> dv1 0 = 0 -> dv2 0 = 0 ->
+  is_derive th0 0 w0 -> is_derive th1 0 w1 -> is_derive th2 0 w2 ->
+  is_derive dv0 0 f0 -> is_derive dv1 0 f1 -> is_derive dv2 0 f2 ->
+  is_derive (fun dt => step3d_lat dt lat lon alt VN VE VD C00 C01 C02 C10 C11 C12 C20 C21 C22 (th0 dt) (th1 dt) (th2 dt) (dv0 dt) (dv1 dt) (dv2 dt)) 0
+    (nav_rhs_lat lat lon alt VN VE VD C00 C01 C02 C10 C11 C12 C20 C21 C22 w0 w1 w2 f0 f1 f2) /\
+  is_derive (fun dt => step3d_lon dt lat lon alt VN VE VD C00 C01 C02 C10 C11 C12 C20 C21 C22 (th0 dt) (th1 dt) (th2 dt) (dv0 dt) (dv1 dt) (dv2 dt)) 0
+    (nav_rhs_lon lat lon alt VN VE VD C00 C01 C02 C10 C11 C12 C20 C21 C22 w0 w1 w2 f0 f1 f2) /\
+  is_derive (fun dt => step3d_alt dt lat lon alt VN VE VD C00 C01 C02 C10 C11 C12 C20 C21 C22 (th0 dt) (th1 dt) (th2 dt) (dv0 dt) (dv1 dt) (dv2 dt)) 0
+    (nav_rhs_alt lat lon alt VN VE VD C00 C01 C02 C10 C11 C12 C20 C21 C22 w0 w1 w2 f0 f1 f2).
+Proof.
+  intros Hlat Halt Hth0 Hth1 Hth2 Hdv0 Hdv1 Hdv2 Dth0 Dth1 Dth2 Ddv0 Ddv1 Ddv2.
+  split; [|split; [|]].
+  - via_hand step3d_lat_char d_hand_lat.
+  - via_hand step3d_lon_char d_hand_lon.
+  - via_hand step3d_alt_char d_hand_alt.
+Qed.
+
+Lemma step_consistent_velocity (lat lon alt VN VE VD C00 C01 C02 C10 C11 C12 C20 C21 C22 w0 w1 w2 f0 f1 f2 : R)
+      (th0 th1 th2 dv0 dv1 dv2 : R -> R) :
+  -90 < lat < 90 -> -1000000 <= alt ->
+  th0 0 = 0 -> th1 0 = 0 -> th2 0 = 0 -> dv0 0 = 0 -> dv1 0 = 0 -> dv2 0 = 0 ->
+  is_derive th0 0 w0 -> is_derive th1 0 w1 -> is_derive th2 0 w2 ->
+  is_derive dv0 0 f0 -> is_derive dv1 0 f1 -> is_derive dv2 0 f2 ->
+  is_derive (fun dt => step3d_VN dt lat lon alt VN VE VD C00 C01 C02 C10 C11 C12 C20 C21 C22 (th0 dt) (th1 dt) (th2 dt) (dv0 dt) (dv1 dt) (dv2 dt)) 0
+    (nav_rhs_VN lat lon alt VN VE VD C00 C01 C02 C10 C11 C12 C20 C21 C22 w0 w1 w2 f0 f1 f2) /\
+  is_derive (fun dt => step3d_VE dt lat lon alt VN VE VD C00 C01 C02 C10 C11 C12 C20 C21 C22 (th0 dt) (th1 dt) (th2 dt) (dv0 dt) (dv1 dt) (dv2 dt)) 0
+    (nav_rhs_VE lat lon alt VN VE VD C00 C01 C02 C10 C11 C12 C20 C21 C22 w0 w1 w2 f0 f1 f2) /\
+  is_derive (fun dt => step3d_VD dt lat lon alt VN VE VD C00 C01 C02 C10 C11 C12 C20 C21 C22 (th0 dt) (th1 dt) (th2 dt) (dv0 dt) (dv1 dt) (dv2 dt)) 0
+    (nav_rhs_VD lat lon alt VN VE VD C00 C01 C02 C10 C11 C12 C20 C21 C22 w0 w1 w2 f0 f1 f2).
+Proof.
+  intros Hlat Halt Hth0 Hth1 Hth2 Hdv0 Hdv1 Hdv2 Dth0 Dth1 Dth2 Ddv0 Ddv1 Ddv2.
+  split; [|split; [|]].
+  - via_hand step3d_VN_char d_hand_VN.
+  - via_hand step3d_VE_char d_hand_VE.
+  - via_hand step3d_VD_char d_hand_VD.
+Qed.
+
+Lemma step_consistent_attitude (lat lon alt VN VE VD C00 C01 C02 C10 C11 C12 C20 C21 C22 w0 w1 w2 f0 f1 f2 : R)
+      (th0 th1 th2 dv0 dv1 dv2 : R -> R) :
+  -90 < lat < 90 -> -1000000 <= alt ->
+  th0 0 = 0 -> th1 0 = 0 -> th2 0 = 0 -> dv0 0 = 0 -> dv1 0 = 0 -> dv2 0 = 0 ->
+  is_derive th0 0 w0 -> is_derive th1 0 w1 -> is_derive th2 0 w2 ->
+  is_derive dv0 0 f0 -> is_derive dv1 0 f1 -> is_derive dv2 0 f2 ->
+  is_derive (fun dt => step3d_C00 dt lat lon alt VN VE VD C00 C01 C02 C10 C11 C12 C20 C21 C22 (th0 dt) (th1 dt) (th2 dt) (dv0 dt) (dv1 dt) (dv2 dt)) 0
+    (nav_rhs_C00 lat lon alt VN VE VD C00 C01 C02 C10 C11 C12 C20 C21 C22 w0 w1 w2 f0 f1 f2) /\
+  is_derive (fun dt => step3d_C01 dt lat lon alt VN VE VD C00 C01 C02 C10 C11 C12 C20 C21 C22 (th0 dt) (th1 dt) (th2 dt) (dv0 dt) (dv1 dt) (dv2 dt)) 0
+    (nav_rhs_C01 lat lon alt VN VE VD C00 C01 C02 C10 C11 C12 C20 C21 C22 w0 w1 w2 f0 f1 f2) /\
+  is_derive (fun dt => step3d_C02 dt lat lon alt VN VE VD C00 C01 C02 C10 C11 C12 C20 C21 C22 (th0 dt) (th1 dt) (th2 dt) (dv0 dt) (dv1 dt) (dv2 dt)) 0
+    (nav_rhs_C02 lat lon alt VN VE VD C00 C01 C02 C10 C11 C12 C20 C21 C22 w0 w1 w2 f0 f1 f2) /\
+  is_derive (fun dt => step3d_C10 dt lat lon alt VN VE VD C00 C01 C02 C10 C11 C12 C20 C21 C22 (th0 dt) (th1 dt) (th2 dt) (dv0 dt) (dv1 dt) (dv2 dt)) 0
+    (nav_rhs_C10 lat lon alt VN VE VD C00 C01 C02 C10 C11 C12 C20 C21 C22 w0 w1 w2 f0 f1 f2) /\
+  is_derive (fun dt => step3d_C11 dt lat lon alt VN VE VD C00 C01 C02 C10 C11 C12 C20 C21 C22 (th0 dt) (th1 dt) (th2 dt) (dv0 dt) (dv1 dt) (dv2 dt)) 0
+    (nav_rhs_C11 lat lon alt VN VE VD C00 C01 C02 C10 C11 C12 C20 C21 C22 w0 w1 w2 f0 f1 f2) /\
+  is_derive (fun dt => step3d_C12 dt lat lon alt VN VE VD C00 C01 C02 C10 C11 C12 C20 C21 C22 (th0 dt) (th1 dt) (th2 dt) (dv0 dt) (dv1 dt) (dv2 dt)) 0
+    (nav_rhs_C12 lat lon alt VN VE VD C00 C01 C02 C10 C11 C12 C20 C21 C22 w0 w1 w2 f0 f1 f2) /\
+  is_derive (fun dt => step3d_C20 dt lat lon alt VN VE VD C00 C01 C02 C10 C11 C12 C20 C21 C22 (th0 dt) (th1 dt) (th2 dt) (dv0 dt) (dv1 dt) (dv2 dt)) 0
+    (nav_rhs_C20 lat lon alt VN VE VD C00 C01 C02 C10 C11 C12 C20 C21 C22 w0 w1 w2 f0 f1 f2) /\
+  is_derive (fun dt => step3d_C21 dt lat lon alt VN VE VD C00 C01 C02 C10 C11 C12 C20 C21 C22 (th0 dt) (th1 dt) (th2 dt) (dv0 dt) (dv1 dt) (dv2 dt)) 0
+    (nav_rhs_C21 lat lon alt VN VE VD C00 C01 C02 C10 C11 C12 C20 C21 C22 w0 w1 w2 f0 f1 f2) /\
+  is_derive (fun dt => step3d_C22 dt lat lon alt VN VE VD C00 C01 C02 C10 C11 C12 C20 C21 C22 (th0 dt) (th1 dt) (th2 dt) (dv0 dt) (dv1 dt) (dv2 dt)) 0
+    (nav_rhs_C22 lat lon alt VN VE VD C00 C01 C02 C10 C11 C12 C20 C21 C22 w0 w1 w2 f0 f1 f2).
+Proof.
+  intros Hlat Halt Hth0 Hth1 Hth2 Hdv0 Hdv1 Hdv2 Dth0 Dth1 Dth2 Ddv0 Ddv1 Ddv2.
+  split; [|split; [|split; [|split; [|split; [|split; [|split; [|split; [|]]]]]]]].
+  - via_hand step3d_C00_char d_hand_C00.
+  - via_hand step3d_C01_char d_hand_C01.
+  - via_hand step3d_C02_char d_hand_C02.
+  - via_hand step3d_C10_char d_hand_C10.
+  - via_hand step3d_C11_char d_hand_C11.
+  - via_hand step3d_C12_char d_hand_C12.
+  - via_hand step3d_C20_char d_hand_C20.
+  - via_hand step3d_C21_char d_hand_C21.
+  - via_hand step3d_C22_char d_hand_C22.
+Qed.
+
+
+(** * 6. The increments computed from IMU samples satisfy the premises of step_consistent *)
+
+(** rate-type sensor: samples are the signal values w(t), f(t) at the two ends of the interval;
+    epoch = 0, interval length = dt *)
+Section RateIncrements.
+Variables w0 w1 w2 f0 f1 f2 : R -> R.          (* body angular rate and specific force signals *)
+Variables w0' w1' w2' f0' f1' f2' : R.
+Hypothesis Dw0 : is_derive w0 0 w0'.
+Hypothesis Dw1 : is_derive w1 0 w1'.
+Hypothesis Dw2 : is_derive w2 0 w2'.
+Hypothesis Df0 : is_derive f0 0 f0'.
+Hypothesis Df1 : is_derive f1 0 f1'.
+Hypothesis Df2 : is_derive f2 0 f2'.
+
+Ltac unf_inc := unfold h_rate_theta0, h_rate_theta1, h_rate_theta2, h_rate_dv0, h_rate_dv1, h_rate_dv2,
+  h_rate_inc, h_cross0, h_cross1, h_cross2.
+Ltac inc_deriv := unf_inc; auto_derive; [repeat split; trivial; eexists; eassumption | field].
+
+Lemma rate_increments_zero :
+  h_rate_theta0 0 (w0 0) (w1 0) (w2 0) (w0 0) (w1 0) (w2 0) = 0 /\
+  h_rate_theta1 0 (w0 0) (w1 0) (w2 0) (w0 0) (w1 0) (w2 0) = 0 /\
+  h_rate_theta2 0 (w0 0) (w1 0) (w2 0) (w0 0) (w1 0) (w2 0) = 0 /\
+  h_rate_dv0 0 (w0 0) (w1 0) (w2 0) (w0 0) (w1 0) (w2 0) (f0 0) (f1 0) (f2 0) (f0 0) (f1 0) (f2 0) = 0 /\
+  h_rate_dv1 0 (w0 0) (w1 0) (w2 0) (w0 0) (w1 0) (w2 0) (f0 0) (f1 0) (f2 0) (f0 0) (f1 0) (f2 0) = 0 /\
+  h_rate_dv2 0 (w0 0) (w1 0) (w2 0) (w0 0) (w1 0) (w2 0) (f0 0) (f1 0) (f2 0) (f0 0) (f1 0) (f2 0) = 0.
+Proof. unf_inc. repeat split; field. Qed.
+
+Lemma rate_theta0_deriv :
+  is_derive (fun dt => h_rate_theta0 dt (w0 0) (w1 0) (w2 0) (w0 dt) (w1 dt) (w2 dt)) 0 (w0 0).
+Proof. inc_deriv. Qed.
+Lemma rate_dv0_deriv :
+  is_derive (fun dt => h_rate_dv0 dt (w0 0) (w1 0) (w2 0) (w0 dt) (w1 dt) (w2 dt)
+                                     (f0 0) (f1 0) (f2 0) (f0 dt) (f1 dt) (f2 dt)) 0 (f0 0).
+Proof. inc_deriv. Qed.
+Lemma rate_theta1_deriv :
+  is_derive (fun dt => h_rate_theta1 dt (w0 0) (w1 0) (w2 0) (w0 dt) (w1 dt) (w2 dt)) 0 (w1 0).
+Proof. inc_deriv. Qed.
+Lemma rate_dv1_deriv :
+  is_derive (fun dt => h_rate_dv1 dt (w0 0) (w1 0) (w2 0) (w0 dt) (w1 dt) (w2 dt)
+                                     (f0 0) (f1 0) (f2 0) (f0 dt) (f1 dt) (f2 dt)) 0 (f1 0).
+Proof. inc_deriv. Qed.
+Lemma rate_theta2_deriv :
+  is_derive (fun dt => h_rate_theta2 dt (w0 0) (w1 0) (w2 0) (w0 dt) (w1 dt) (w2 dt)) 0 (w2 0).
+Proof. inc_deriv. Qed.
+Lemma rate_dv2_deriv :
+  is_derive (fun dt => h_rate_dv2 dt (w0 0) (w1 0) (w2 0) (w0 dt) (w1 dt) (w2 dt)
+                                     (f0 0) (f1 0) (f2 0) (f0 dt) (f1 dt) (f2 dt)) 0 (f2 0).
+Proof. inc_deriv. Qed.
+End RateIncrements.
+
+(** increment-type sensor: the samples are integrals of the signals over the previous (p) and the
+    current (c) interval, here as functions of the interval length dt; gc' = w(0), fc' = f(0) *)
+Section IncrIncrements.
+Variables gp0 gp1 gp2 gc0 gc1 gc2 fp0 fp1 fp2 fc0 fc1 fc2 : R -> R.
+Variables w0 w1 w2 f0 f1 f2 : R.
+Hypothesis Zgp0 : gp0 0 = 0.
+Hypothesis Zgp1 : gp1 0 = 0.
+Hypothesis Zgp2 : gp2 0 = 0.
+Hypothesis Zgc0 : gc0 0 = 0.
+Hypothesis Zgc1 : gc1 0 = 0.
+Hypothesis Zgc2 : gc2 0 = 0.
+Hypothesis Zfp0 : fp0 0 = 0.
+Hypothesis Zfp1 : fp1 0 = 0.
+Hypothesis Zfp2 : fp2 0 = 0.
+Hypothesis Zfc0 : fc0 0 = 0.
+Hypothesis Zfc1 : fc1 0 = 0.
+Hypothesis Zfc2 : fc2 0 = 0.
+Hypothesis Egp0 : ex_derive gp0 0.
+Hypothesis Egp1 : ex_derive gp1 0.
+Hypothesis Egp2 : ex_derive gp2 0.
+Hypothesis Efp0 : ex_derive fp0 0.
+Hypothesis Efp1 : ex_derive fp1 0.
+Hypothesis Efp2 : ex_derive fp2 0.
+Hypothesis Dgc0 : is_derive gc0 0 w0.
+Hypothesis Dgc1 : is_derive gc1 0 w1.
+Hypothesis Dgc2 : is_derive gc2 0 w2.
+Hypothesis Dfc0 : is_derive fc0 0 f0.
+Hypothesis Dfc1 : is_derive fc1 0 f1.
+Hypothesis Dfc2 : is_derive fc2 0 f2.
+
+Ltac unf_incr := unfold h_incr_theta0, h_incr_theta1, h_incr_theta2, h_incr_dv0, h_incr_dv1, h_incr_dv2,
+  h_cross0, h_cross1, h_cross2.
+Ltac incr_deriv_th :=
+  unf_incr; auto_derive; [repeat split; trivial; eexists; eassumption|];
+  let E := fresh "E" in
+  assert (E : Derive (fun x => gc0 x) 0 = w0) by (apply is_derive_unique; exact Dgc0); rewrite ?E; clear E;
+  assert (E : Derive (fun x => gc1 x) 0 = w1) by (apply is_derive_unique; exact Dgc1); rewrite ?E; clear E;
+  assert (E : Derive (fun x => gc2 x) 0 = w2) by (apply is_derive_unique; exact Dgc2); rewrite ?E; clear E;
+  rewrite ?Zgp0, ?Zgp1, ?Zgp2, ?Zgc0, ?Zgc1, ?Zgc2; field.
+Ltac incr_deriv_dv :=
+  unf_incr; auto_derive; [repeat split; trivial; eexists; eassumption|];
+  let E := fresh "E" in
+  assert (E : Derive (fun x => gc0 x) 0 = w0) by (apply is_derive_unique; exact Dgc0); rewrite ?E; clear E;
+  assert (E : Derive (fun x => gc1 x) 0 = w1) by (apply is_derive_unique; exact Dgc1); rewrite ?E; clear E;
+  assert (E : Derive (fun x => gc2 x) 0 = w2) by (apply is_derive_unique; exact Dgc2); rewrite ?E; clear E;
+  assert (E : Derive (fun x => fc0 x) 0 = f0) by (apply is_derive_unique; exact Dfc0); rewrite ?E; clear E;
+  assert (E : Derive (fun x => fc1 x) 0 = f1) by (apply is_derive_unique; exact Dfc1); rewrite ?E; clear E;
+  assert (E : Derive (fun x => fc2 x) 0 = f2) by (apply is_derive_unique; exact Dfc2); rewrite ?E; clear E;
+  rewrite ?Zgp0, ?Zgp1, ?Zgp2, ?Zgc0, ?Zgc1, ?Zgc2, ?Zfp0, ?Zfp1, ?Zfp2, ?Zfc0, ?Zfc1, ?Zfc2; field.
+
+Lemma incr_increments_zero :
+  h_incr_theta0 (gp0 0) (gp1 0) (gp2 0) (gc0 0) (gc1 0) (gc2 0) = 0 /\
+  h_incr_theta1 (gp0 0) (gp1 0) (gp2 0) (gc0 0) (gc1 0) (gc2 0) = 0 /\
+  h_incr_theta2 (gp0 0) (gp1 0) (gp2 0) (gc0 0) (gc1 0) (gc2 0) = 0 /\
+  h_incr_dv0 (gp0 0) (gp1 0) (gp2 0) (gc0 0) (gc1 0) (gc2 0) (fp0 0) (fp1 0) (fp2 0) (fc0 0) (fc1 0) (fc2 0) = 0 /\
+  h_incr_dv1 (gp0 0) (gp1 0) (gp2 0) (gc0 0) (gc1 0) (gc2 0) (fp0 0) (fp1 0) (fp2 0) (fc0 0) (fc1 0) (fc2 0) = 0 /\
+  h_incr_dv2 (gp0 0) (gp1 0) (gp2 0) (gc0 0) (gc1 0) (gc2 0) (fp0 0) (fp1 0) (fp2 0) (fc0 0) (fc1 0) (fc2 0) = 0.
+Proof.
+  rewrite Zgp0, Zgp1, Zgp2, Zgc0, Zgc1, Zgc2, Zfp0, Zfp1, Zfp2, Zfc0, Zfc1, Zfc2.
+  unf_incr. repeat split; field.
+Qed.
+Lemma incr_theta0_deriv :
+  is_derive (fun dt => h_incr_theta0 (gp0 dt) (gp1 dt) (gp2 dt) (gc0 dt) (gc1 dt) (gc2 dt)) 0 w0.
+Proof. incr_deriv_th. Qed.
+Lemma incr_dv0_deriv :
+  is_derive (fun dt => h_incr_dv0 (gp0 dt) (gp1 dt) (gp2 dt) (gc0 dt) (gc1 dt) (gc2 dt)
+                                   (fp0 dt) (fp1 dt) (fp2 dt) (fc0 dt) (fc1 dt) (fc2 dt)) 0 f0.
+Proof. incr_deriv_dv. Qed.
+Lemma incr_theta1_deriv :
+  is_derive (fun dt => h_incr_theta1 (gp0 dt) (gp1 dt) (gp2 dt) (gc0 dt) (gc1 dt) (gc2 dt)) 0 w1.
+Proof. incr_deriv_th. Qed.
+Lemma incr_dv1_deriv :
+  is_derive (fun dt => h_incr_dv1 (gp0 dt) (gp1 dt) (gp2 dt) (gc0 dt) (gc1 dt) (gc2 dt)
+                                   (fp0 dt) (fp1 dt) (fp2 dt) (fc0 dt) (fc1 dt) (fc2 dt)) 0 f1.
+Proof. incr_deriv_dv. Qed.
+Lemma incr_theta2_deriv :
+  is_derive (fun dt => h_incr_theta2 (gp0 dt) (gp1 dt) (gp2 dt) (gc0 dt) (gc1 dt) (gc2 dt)) 0 w2.
+Proof. incr_deriv_th. Qed.
+Lemma incr_dv2_deriv :
+  is_derive (fun dt => h_incr_dv2 (gp0 dt) (gp1 dt) (gp2 dt) (gc0 dt) (gc1 dt) (gc2 dt)
+                                   (fp0 dt) (fp1 dt) (fp2 dt) (fc0 dt) (fc1 dt) (fc2 dt)) 0 f2.
+Proof. incr_deriv_dv. Qed.
+End IncrIncrements.
+
+(** integrals of a signal with antiderivative W over the current interval [0, dt] and over the
+    previous interval [-dt, 0] are curves of the kind assumed above *)
+Lemma integral_sample_current (W : R -> R) (w : R) :
+  is_derive W 0 w -> h_cur W 0 = 0 /\ is_derive (h_cur W) 0 w.
+Proof.
+  intro D. unfold h_cur. split; [ring|].
+  auto_derive; [eexists; eassumption|].
+  assert (E : Derive (fun x => W x) 0 = w) by (apply is_derive_unique; exact D). rewrite E. ring.
+Qed.
+Lemma integral_sample_previous (W : R -> R) (w : R) :
+  is_derive W 0 w -> h_prv W 0 = 0 /\ ex_derive (h_prv W) 0.
+Proof.
+  intro D. unfold h_prv. split; [rewrite Ropp_0; ring|].
+  auto_derive. rewrite Ropp_0. eexists; eassumption.
+Qed.
+
+(** closed statements *)
+Lemma increments_consistent_rate (w0 w1 w2 f0 f1 f2 : R -> R) :
+  ex_derive w0 0 -> ex_derive w1 0 -> ex_derive w2 0 ->
+  ex_derive f0 0 -> ex_derive f1 0 -> ex_derive f2 0 ->
+  let th0 := fun dt => h_rate_theta0 dt (w0 0) (w1 0) (w2 0) (w0 dt) (w1 dt) (w2 dt) in
+  let th1 := fun dt => h_rate_theta1 dt (w0 0) (w1 0) (w2 0) (w0 dt) (w1 dt) (w2 dt) in
+  let th2 := fun dt => h_rate_theta2 dt (w0 0) (w1 0) (w2 0) (w0 dt) (w1 dt) (w2 dt) in
+  let dv0 := fun dt => h_rate_dv0 dt (w0 0) (w1 0) (w2 0) (w0 dt) (w1 dt) (w2 dt) (f0 0) (f1 0) (f2 0) (f0 dt) (f1 dt) (f2 dt) in
+  let dv1 := fun dt => h_rate_dv1 dt (w0 0) (w1 0) (w2 0) (w0 dt) (w1 dt) (w2 dt) (f0 0) (f1 0) (f2 0) (f0 dt) (f1 dt) (f2 dt) in
+  let dv2 := fun dt => h_rate_dv2 dt (w0 0) (w1 0) (w2 0) (w0 dt) (w1 dt) (w2 dt) (f0 0) (f1 0) (f2 0) (f0 dt) (f1 dt) (f2 dt) in
+  (th0 0 = 0 /\ th1 0 = 0 /\ th2 0 = 0 /\ dv0 0 = 0 /\ dv1 0 = 0 /\ dv2 0 = 0) /\
+  (is_derive th0 0 (w0 0) /\ is_derive th1 0 (w1 0) /\ is_derive th2 0 (w2 0)) /\
+  (is_derive dv0 0 (f0 0) /\ is_derive dv1 0 (f1 0) /\ is_derive dv2 0 (f2 0)).
+Proof.
+  intros [w0' Dw0] [w1' Dw1] [w2' Dw2] [f0' Df0] [f1' Df1] [f2' Df2]. cbv zeta.
+  split; [exact (rate_increments_zero w0 w1 w2 f0 f1 f2) | split; (split; [|split])].
+  - eapply rate_theta0_deriv; eassumption.
+  - eapply rate_theta1_deriv; eassumption.
+  - eapply rate_theta2_deriv; eassumption.
+  - eapply rate_dv0_deriv; eassumption.
+  - eapply rate_dv1_deriv; eassumption.
+  - eapply rate_dv2_deriv; eassumption.
+Qed.
+
+Lemma increments_consistent_increment (G0 G1 G2 F0 F1 F2 : R -> R) (w0 w1 w2 f0 f1 f2 : R) :
+  is_derive G0 0 w0 -> is_derive G1 0 w1 -> is_derive G2 0 w2 ->
+  is_derive F0 0 f0 -> is_derive F1 0 f1 -> is_derive F2 0 f2 ->
+  let cur := h_cur in       (* cur W dt = integral of W' over [0, dt] *)
+  let prv := h_prv in       (* prv W dt = integral of W' over [-dt, 0] *)
+  let th0 := fun dt => h_incr_theta0 (prv G0 dt) (prv G1 dt) (prv G2 dt) (cur G0 dt) (cur G1 dt) (cur G2 dt) in
+  let th1 := fun dt => h_incr_theta1 (prv G0 dt) (prv G1 dt) (prv G2 dt) (cur G0 dt) (cur G1 dt) (cur G2 dt) in
+  let th2 := fun dt => h_incr_theta2 (prv G0 dt) (prv G1 dt) (prv G2 dt) (cur G0 dt) (cur G1 dt) (cur G2 dt) in
+  let dv0 := fun dt => h_incr_dv0 (prv G0 dt) (prv G1 dt) (prv G2 dt) (cur G0 dt) (cur G1 dt) (cur G2 dt)
+                                  (prv F0 dt) (prv F1 dt) (prv F2 dt) (cur F0 dt) (cur F1 dt) (cur F2 dt) in
+  let dv1 := fun dt => h_incr_dv1 (prv G0 dt) (prv G1 dt) (prv G2 dt) (cur G0 dt) (cur G1 dt) (cur G2 dt)
+                                  (prv F0 dt) (prv F1 dt) (prv F2 dt) (cur F0 dt) (cur F1 dt) (cur F2 dt) in
+  let dv2 := fun dt => h_incr_dv2 (prv G0 dt) (prv G1 dt) (prv G2 dt) (cur G0 dt) (cur G1 dt) (cur G2 dt)
+                                  (prv F0 dt) (prv F1 dt) (prv F2 dt) (cur F0 dt) (cur F1 dt) (cur F2 dt) in
+  (th0 0 = 0 /\ th1 0 = 0 /\ th2 0 = 0 /\ dv0 0 = 0 /\ dv1 0 = 0 /\ dv2 0 = 0) /\
+  (is_derive th0 0 w0 /\ is_derive th1 0 w1 /\ is_derive th2 0 w2) /\
+  (is_derive dv0 0 f0 /\ is_derive dv1 0 f1 /\ is_derive dv2 0 f2).
+Proof.
+  intros DG0 DG1 DG2 DF0 DF1 DF2. cbv zeta.
+  destruct (integral_sample_current G0 w0 DG0) as [Zc0 Dc0]. destruct (integral_sample_previous G0 w0 DG0) as [Zp0 Ep0].
+  destruct (integral_sample_current G1 w1 DG1) as [Zc1 Dc1]. destruct (integral_sample_previous G1 w1 DG1) as [Zp1 Ep1].
+  destruct (integral_sample_current G2 w2 DG2) as [Zc2 Dc2]. destruct (integral_sample_previous G2 w2 DG2) as [Zp2 Ep2].
+  destruct (integral_sample_current F0 f0 DF0) as [Yc0 Fc0]. destruct (integral_sample_previous F0 f0 DF0) as [Yp0 Fp0].
+  destruct (integral_sample_current F1 f1 DF1) as [Yc1 Fc1]. destruct (integral_sample_previous F1 f1 DF1) as [Yp1 Fp1].
+  destruct (integral_sample_current F2 f2 DF2) as [Yc2 Fc2]. destruct (integral_sample_previous F2 f2 DF2) as [Yp2 Fp2].
+  split; [|split; (split; [|split])].
+  - apply (incr_increments_zero (h_prv G0) (h_prv G1) (h_prv G2) (h_cur G0) (h_cur G1) (h_cur G2)
+             (h_prv F0) (h_prv F1) (h_prv F2) (h_cur F0) (h_cur F1) (h_cur F2)); assumption.
+  - eapply (incr_theta0_deriv (h_prv G0) (h_prv G1) (h_prv G2) (h_cur G0) (h_cur G1) (h_cur G2)); eassumption.
+  - eapply (incr_theta1_deriv (h_prv G0) (h_prv G1) (h_prv G2) (h_cur G0) (h_cur G1) (h_cur G2)); eassumption.
+  - eapply (incr_theta2_deriv (h_prv G0) (h_prv G1) (h_prv G2) (h_cur G0) (h_cur G1) (h_cur G2)); eassumption.
+  - eapply (incr_dv0_deriv (h_prv G0) (h_prv G1) (h_prv G2) (h_cur G0) (h_cur G1) (h_cur G2)
+             (h_prv F0) (h_prv F1) (h_prv F2) (h_cur F0) (h_cur F1) (h_cur F2)); eassumption.
+  - eapply (incr_dv1_deriv (h_prv G0) (h_prv G1) (h_prv G2) (h_cur G0) (h_cur G1) (h_cur G2)
+             (h_prv F0) (h_prv F1) (h_prv F2) (h_cur F0) (h_cur F1) (h_cur F2)); eassumption.
+  - eapply (incr_dv2_deriv (h_prv G0) (h_prv G1) (h_prv G2) (h_cur G0) (h_cur G1) (h_cur G2)
+             (h_prv F0) (h_prv F1) (h_prv F2) (h_cur F0) (h_cur F1) (h_cur F2)); eassumption.
+Qed.
